@@ -77,6 +77,11 @@ def run(ctx):
         def bad(self, rule, key, *a, **k):
             return self.c.bad("C18.f", key, *a, **k)
     c01.rule_h(_Proxy(ctx), cr)
+    ctx.rule("C18.h", "every VM handler that returns normally has ONE net effect on the value "
+             "stack, whichever successful path it takes (an early `return Ok(..)` that skips the "
+             "pops leaves the operands behind); decided for the loop-free handlers by enumerating "
+             "their paths, error exits excluded; Runtime::input is the reviewed state machine")
+    rule_h(ctx, cr)
     ctx.rule("C18.g", "INPUT pushes exactly as many reply fields as the statement's Input opcodes "
              "pop: do_input rejects every reply whose field count differs from the variable count "
              "(see C17.f), so a completed INPUT leaves nothing on the stack")
@@ -220,3 +225,75 @@ def rule_e(ctx, cr):
     gotos = g.calls_to("mach::link::Link::push_goto")
     ctx.check(len(on) == 1 and len(gotos) == 1 and g.dominates(on[0].bb, gotos[0].bb), "C18.e",
               "Generator::on/table-after-On", g.span, "the jump table follows the On opcode")
+
+
+STACK_EFFECT = {"mach::stack::Stack<T>::pop": -1, "mach::stack::Stack<T>::pop_2": -2,
+                "mach::stack::Stack<T>::push": 1}
+MULTI_EFFECT_OK = {
+    "input": "state machine: re-arms itself in Running state (0), converts one field per Input(name) "
+             "(0), and the closing Input(\"\") drops the four staged entries (-4): C17.a",
+}
+
+
+def ok_path_effects(f):
+    """net value-stack effects over the paths of a loop-free handler that do not pass an error
+    construction; 'loop' / 'var' when the rule does not apply"""
+    if f.sccs():
+        return "loop"
+    res = set()
+    state = {"var": False, "n": 0}
+
+    def is_stack(c):
+        return bool(c.args) and f.describe(c.args[0]).endswith(".stack")
+
+    def walk(b, net, err):
+        state["n"] += 1
+        if state["n"] > 200000:
+            state["var"] = True
+            return
+        c = f.call_at(b)
+        d = 0
+        if c is not None:
+            if c.name.endswith("from_residual") or c.name == "lang::error::Error::new":
+                err = True
+            if is_stack(c):
+                if c.name in STACK_EFFECT:
+                    d = STACK_EFFECT[c.name]
+                elif not re.search(r"Stack<T>::(len|is_empty|is_full|last|get)$", c.name):
+                    state["var"] = True
+        if f.term(b)["k"] == "return":
+            if not err:
+                res.add(net + d)
+            return
+        for s_ in f.succ(b):
+            if f.blocks[s_].get("cleanup"):
+                continue
+            walk(s_, net + d, err)
+    walk(0, 0, False)
+    return "var" if state["var"] else res
+
+
+def rule_h(ctx, cr):
+    n = 0
+    for p, f in sorted(cr.fns.items()):
+        if not p.startswith("mach::runtime::Runtime::") or "{" in p:
+            continue
+        if not any(c.args and f.describe(c.args[0]).endswith(".stack") and
+                   c.name in STACK_EFFECT for c in f.calls()):
+            continue
+        name = p.rsplit("::", 1)[1]
+        eff = ok_path_effects(f)
+        if isinstance(eff, str):
+            continue
+        ctx.touch(f)
+        n += 1
+        if name in MULTI_EFFECT_OK:
+            ctx.ok("C18.h", "handler/%s" % name, f.span, MULTI_EFFECT_OK[name])
+            continue
+        ctx.check(len(eff) <= 1, "C18.h", "handler/%s" % name, f.span,
+                  "net stack effect %s on every successful path" % sorted(eff),
+                  "Runtime::%s returns Ok with different net effects on the value stack (%s): one "
+                  "of its successful paths leaves operands behind (or takes too many), so the "
+                  "statement does not leave the stack as it found it and repeating it runs the "
+                  "stack full" % (name, sorted(eff)))
+    ctx.floor("C18.h", "loop-free handlers with a decidable stack effect", n, 15)
